@@ -190,4 +190,137 @@ def Event.internal : Event → Bool
   | .rRecvEOF | .rLookup | .rFire | .rSetErr | .rTerminate | .rAbort | .rCloseSend | .rDrain | .rDone => true
   | _ => false
 
+/-! ### the `sync.WaitGroup` of a server batch that sends through the runner (C05)
+
+`runTestCasesForServer` does `wg.Add(1)` before every `sendRequest`, `wg.Done()` inside the
+completion callback, and `wg.Done()` itself when `sendRequest` returns an error (after which it
+sends nothing more); then it blocks in `wg.Wait()` before it stops its server.  For the requests
+`ids` of one batch: -/
+
+def started : SPc → Nat
+  | .idle => 0
+  | _ => 1
+
+/-- `wg.Done()` by the batch itself: the send was refused -/
+def refusedDone : SPc → Nat
+  | .ret .dup => 1
+  | .ret (.err _) => 1
+  | _ => 0
+
+def wgAdds (s : State) (ids : List Nat) : Nat := (ids.map (fun i => started (s.spc i))).sum
+def wgDones (s : State) (ids : List Nat) : Nat := (ids.map (fun i => firedCount s i + refusedDone (s.spc i))).sum
+
+/-- `wg.Wait()` of the batch passes -/
+def batchWaitPasses (s : State) (ids : List Nat) : Bool := wgDones s ids == wgAdds s ids
+
+/-! ### `waitForResponses`: how long the runner waits for the client process (C10)
+
+```
+<-c.done                                         -- the output reader has finished
+go func() { procErrChan <- c.proc.result() }()
+select { case procErr = <-procErrChan:
+         case <-time.After(3 * time.Second): c.proc.abort(); procErr = <-procErrChan }
+```
+`result()` of an in-process client (`localProcess`) returns when the client function has returned
+or when `gracefulShutdownPeriod` has passed since the call — `abort()` only cancels a context, which a
+client that sits in a write on its unread output never sees.  `result()` of an OS process
+(`cmdProcess`) waits for `done`, which is closed when the process has been reaped, or — after
+`abort()` — by the abort goroutine once it has waited `gracefulShutdownPeriod`, closed the pipes, and
+waited the same time again.  The process (whether and when it ends) is the environment. -/
+
+inductive ProcKind | inProcess | osProcess
+  deriving DecidableEq, Repr
+
+structure WaitCfg where
+  kind : ProcKind
+  /-- `localProcess.result()` gives up after `gracefulShutdownPeriod` -/
+  localResultBounded : Bool
+  deriving Repr
+
+inductive WPc
+  | waitDone   -- `<-c.done`
+  | waitProc   -- in the select
+  | prodded    -- `c.proc.abort()` called, `procErr = <-procErrChan`
+  | returned
+  deriving DecidableEq, Repr
+
+structure WSt where
+  wpc : WPc
+  readerDone : Bool
+  /-- the client function has returned / the OS process has been reaped -/
+  procGone : Bool
+  /-- `c.proc.result()` was called (its grace timer runs from here) -/
+  resultCalled : Bool
+  graceElapsed : Bool
+  /-- `procErrChan` holds the result -/
+  resultOut : Bool
+  aborted : Bool
+  /-- the goroutine of `cmdProcess.abort`: 0 first grace period · 1 pipes force-closed · 2 gave up: `markDone` -/
+  abortStage : Nat
+  deriving DecidableEq, Repr
+
+def winit : WSt :=
+  { wpc := .waitDone, readerDone := false, procGone := false, resultCalled := false, graceElapsed := false,
+    resultOut := false, aborted := false, abortStage := 0 }
+
+inductive WEv
+  | rDone        -- the output reader finishes                                   (environment)
+  | pGone        -- the client process ends                                      (environment)
+  | passDone     -- `<-c.done` passes; the goroutine calling `result()` is started
+  | tGrace       -- `gracefulShutdownPeriod` has passed since `result()` was called
+  | deliver      -- `result()` returns, its value is put on `procErrChan`
+  | t3s          -- the 3 s timer of the select fires: `abort()`
+  | aForce       -- abort goroutine (OS process): first grace period over, pipes closed
+  | aGiveUp      -- abort goroutine (OS process): second grace period over, `markDone`
+  | gotResult    -- `waitForResponses` receives from `procErrChan` and returns
+  deriving DecidableEq, Repr
+
+def WEv.internal : WEv → Bool
+  | .rDone | .pGone => false
+  | _ => true
+
+/-- `result()` can return -/
+def resultReady (cfg : WaitCfg) (s : WSt) : Bool :=
+  match cfg.kind with
+  | .inProcess => s.procGone || (cfg.localResultBounded && s.graceElapsed)
+  | .osProcess => s.procGone || s.abortStage == 2
+
+def wstep (cfg : WaitCfg) (s : WSt) : WEv → Option WSt
+  | .rDone => if s.readerDone = false then some { s with readerDone := true } else none
+  | .pGone => if s.procGone = false then some { s with procGone := true } else none
+  | .passDone => if s.wpc = .waitDone ∧ s.readerDone = true then some { s with wpc := .waitProc, resultCalled := true } else none
+  | .tGrace => if s.resultCalled = true ∧ s.graceElapsed = false then some { s with graceElapsed := true } else none
+  | .deliver => if s.resultCalled = true ∧ s.resultOut = false ∧ resultReady cfg s = true then some { s with resultOut := true } else none
+  | .t3s => if s.wpc = .waitProc then some { s with wpc := .prodded, aborted := true } else none
+  | .aForce => if cfg.kind = .osProcess ∧ s.aborted = true ∧ s.abortStage = 0 then some { s with abortStage := 1 } else none
+  | .aGiveUp => if cfg.kind = .osProcess ∧ s.aborted = true ∧ s.abortStage = 1 then some { s with abortStage := 2 } else none
+  | .gotResult => if (s.wpc = .waitProc ∨ s.wpc = .prodded) ∧ s.resultOut = true then some { s with wpc := .returned } else none
+
+def wrun (cfg : WaitCfg) : WSt → List WEv → WSt
+  | s, [] => s
+  | s, e :: es => match wstep cfg s e with
+    | some s' => wrun cfg s' es
+    | none => wrun cfg s es
+
+/-- remaining own steps of `waitForResponses` and the timers it relies on -/
+def wmu (s : WSt) : Nat :=
+  (match s.wpc with | .waitDone => 3 | .waitProc => 2 | .prodded => 1 | .returned => 0) +
+    (if s.graceElapsed then 0 else 1) + (if s.resultOut then 0 else 1) + (2 - s.abortStage)
+
+/-- the steps of the runner's own goroutines and timers -/
+def wown : List WEv := [.passDone, .tGrace, .deliver, .t3s, .aForce, .aGiveUp, .gotResult]
+
+/-- no own step (timer, goroutine) is enabled -/
+def wstuck (cfg : WaitCfg) (s : WSt) : Bool := wown.all (fun e => (wstep cfg s e).isNone)
+
+/-- the own steps in a fixed order, `fuel` rounds (the process never ends by itself) -/
+def wsettle (cfg : WaitCfg) (s : WSt) : Nat → WSt
+  | 0 => s
+  | fuel + 1 => wsettle cfg (wrun cfg s wown) fuel
+
+/-- the code as it is -/
+def waitCode (k : ProcKind) : WaitCfg := { kind := k, localResultBounded := true }
+/-- the variant in which `localProcess.result()` just waits for the client function to return -/
+def waitUnbounded : WaitCfg := { kind := .inProcess, localResultBounded := false }
+
 end ConfModel.ClientRunner
